@@ -95,6 +95,14 @@ Theorem C08_partial_frame : forall (A : Type) (O : NumOps A) ix s (b : bij A) d 
 Proof. exact @partial_frame. Qed.
 Print Assumptions C08_partial_frame.
 
+(* ... and the indexed entries are the child's image of the indexed entries (positions in range and distinct). *)
+Theorem C08_partial_indexed_entries : forall (A : Type) (O : NumOps A) ix s (b : bij A) d x c sg rs,
+  sig_of (Partial ix s b) = Ok sg -> has_shape (fst sg) x = true -> cond_ok (snd sg) c ->
+  resolve_idx ix s = Some rs -> rs_ok rs s ->
+  tgather rs (fst (den O (Partial ix s b) d x c)) = fst (den O b d (tgather rs x) c).
+Proof. exact @partial_hit. Qed.
+Print Assumptions C08_partial_indexed_entries.
+
 Theorem C08_scatter_frame : forall (A : Type) rs (t y : tensor A) I, ~ hit rs I -> tget (tscatter rs t y) I = tget t I.
 Proof. exact @tscatter_frame. Qed.
 Print Assumptions C08_scatter_frame.
